@@ -462,12 +462,25 @@ func (p *PanicPlan) value() any {
 	case 5:
 		// an ordinary error that merely wraps the sentinel is not the sentinel
 		return fmt.Errorf("%s: %w", p.Text, http.ErrAbortHandler)
+	case 6:
+		// values that cannot be compared or hashed
+		return []string{p.Text, "slice"}
+	case 7:
+		return map[string]int{p.Text: 7}
+	case 8:
+		return struct {
+			A string
+			B []byte
+		}{p.Text, []byte(p.Text)}
+	case 9:
+		return &struct{ A string }{p.Text}
 	default:
 		return http.ErrAbortHandler
 	}
 }
 
 type hstream struct {
+	fwd  func() // unary: pass the received request object on to a downstream client
 	recv func() ([]byte, error)
 	send func([]byte) error
 	hdr  func() http.Header
@@ -525,6 +538,10 @@ func (w *World) runProg(ctx context.Context, o *CallObs, st hstream) {
 			if st.hdr != nil {
 				merge(st.hdr(), p.LateHeader)
 			}
+		case "forward":
+			if st.fwd != nil {
+				st.fwd()
+			}
 		case "panic":
 			v := p.HPanic.value()
 			h.PanicValue, h.Panicked = v, true
@@ -559,7 +576,12 @@ func (w *World) serveUnary(ctx context.Context, req *connect.Request[Msg]) (*con
 	o.H.Peer = "unary"
 	var err error
 	defer func() { w.leave(ctx, o, err) }()
-	w.runProg(ctx, o, hstream{})
+	w.runProg(ctx, o, hstream{fwd: func() {
+		// the gateway pattern: the very request object is handed to another
+		// client (whose transport is down)
+		down := connect.NewClient[Msg, Msg](downDoer{}, "http://downstream.test/sim.v1.Down/Call")
+		_, _ = down.CallUnary(ctx, req)
+	}})
 	if err = o.Plan.HErr.build(ctx); err != nil {
 		return nil, err
 	}
@@ -793,6 +815,7 @@ func (w *World) runCall(t *core.Task, o *CallObs) {
 		req := connect.NewRequest(mkMsg(body))
 		if prev := w.byID[p.ReuseRequestOf]; p.ReuseRequestOf != "" && prev != nil && prev.SentReq != nil {
 			req = prev.SentReq // the caller re-sends the same Request object (same task, sequentially)
+			req.Msg = mkMsg(body)
 		}
 		req.Header().Set(callHeader, p.ID)
 		merge(req.Header(), p.ReqHeader)
@@ -1063,4 +1086,14 @@ func (deadlineInterceptor) WrapStreamingClient(next connect.StreamingClientFunc)
 		}
 		return next(ctx, spec)
 	}
+}
+
+// downDoer is the transport of a downstream service that cannot be reached.
+type downDoer struct{}
+
+func (downDoer) Do(req *http.Request) (*http.Response, error) {
+	if req.Body != nil {
+		_ = req.Body.Close()
+	}
+	return nil, errors.New("sim: downstream unreachable")
 }
